@@ -14,6 +14,8 @@ Section Mono.
     le_call : forall ts r, q_call P ts = Some r -> q_call Q ts = Some r;
     le_args : forall ts r, q_args P ts = Some r -> q_args Q ts = Some r;
     le_items : forall k ts r, q_items P k ts = Some r -> q_items Q k ts = Some r;
+    le_params : forall ts r, q_params P ts = Some r -> q_params Q ts = Some r;
+    le_lam : forall ts r, q_lam P ts = Some r -> q_lam Q ts = Some r;
   }.
 
   (* case-split the matches of hypothesis H; calls to P's parsers are rewritten to Q's through `ple` *)
@@ -27,6 +29,8 @@ Section Mono.
         | q_call _ ?a => let E := fresh "E" in destruct d as [[? ?]|] eqn:E; [rewrite (le_call _ _ L _ _ E) | discriminate H]
         | q_args _ ?a => let E := fresh "E" in destruct d as [[? ?]|] eqn:E; [rewrite (le_args _ _ L _ _ E) | discriminate H]
         | q_items _ ?k ?a => let E := fresh "E" in destruct d as [[? ?]|] eqn:E; [rewrite (le_items _ _ L _ _ _ E) | discriminate H]
+        | q_params _ ?a => let E := fresh "E" in destruct d as [[? ?]|] eqn:E; [rewrite (le_params _ _ L _ _ E) | discriminate H]
+        | q_lam _ ?a => let E := fresh "E" in destruct d as [[? ?]|] eqn:E; [rewrite (le_lam _ _ L _ _ E) | discriminate H]
         | _ => destruct d eqn:?; try discriminate H
         end
     end.
@@ -46,8 +50,20 @@ Section Mono.
     end; exact H.
   Qed.
 
+  Lemma p_lc_mono P Q (L : ple P Q) ts r : p_lc P ts = Some r -> p_lc Q ts = Some r.
+  Proof. unfold p_lc. intro H. mono_tac L H; try exact H; try (apply (le_call _ _ L); exact H); try (apply (le_lam _ _ L); exact H). Qed.
+
   Lemma p_nested_mono P Q (L : ple P Q) b ts r : p_nested P b ts = Some r -> p_nested Q b ts = Some r.
-  Proof. unfold p_nested. intro H. mono_tac L H; try exact H; try (apply (le_call _ _ L); exact H). Qed.
+  Proof.
+    unfold p_nested. intro H.
+    repeat match type of H with
+    | context [match ?d with _ => _ end] =>
+        lazymatch d with
+        | p_lc _ ?a => let E := fresh "E" in destruct d as [[? ?]|] eqn:E; [rewrite (p_lc_mono _ _ L _ _ E) | discriminate H]
+        | _ => destruct d eqn:?; try discriminate H
+        end
+    end; try exact H; try (apply (p_lc_mono _ _ L); exact H).
+  Qed.
 
   Lemma p_item_mono P Q (L : ple P Q) k ts r : p_item P k ts = Some r -> p_item Q k ts = Some r.
   Proof.
@@ -81,12 +97,14 @@ Section Mono.
           | _ => destruct d eqn:?; try discriminate H
           end
       end; exact H.
+    - intros ts r H. cbn [step q_params] in *. mono_tac L H; exact H.
+    - intros ts r H. cbn [step q_lam] in *. mono_tac L H; exact H.
   Qed.
 
   Lemma ple_refl P : ple P P.
   Proof. constructor; auto. Qed.
   Lemma ple_trans P Q R : ple P Q -> ple Q R -> ple P R.
-  Proof. intros A B. constructor; intros; [apply (le_term _ _ B), (le_term _ _ A)|apply (le_bin _ _ B), (le_bin _ _ A)|apply (le_loop _ _ B), (le_loop _ _ A)|apply (le_call _ _ B), (le_call _ _ A)|apply (le_args _ _ B), (le_args _ _ A)|apply (le_items _ _ B), (le_items _ _ A)]; assumption. Qed.
+  Proof. intros A B. constructor; intros; [apply (le_term _ _ B), (le_term _ _ A)|apply (le_bin _ _ B), (le_bin _ _ A)|apply (le_loop _ _ B), (le_loop _ _ A)|apply (le_call _ _ B), (le_call _ _ A)|apply (le_args _ _ B), (le_args _ _ A)|apply (le_items _ _ B), (le_items _ _ A)|apply (le_params _ _ B), (le_params _ _ A)|apply (le_lam _ _ B), (le_lam _ _ A)]; assumption. Qed.
 
   Lemma par_S f : ple (par T f) (par T (S f)).
   Proof.
@@ -103,5 +121,11 @@ Section Mono.
     intros Hle. unfold parse. intro H.
     destruct (p_nested (par T f) true ts) as [[e0 r]|] eqn:E; [|discriminate].
     rewrite (p_nested_mono _ _ (par_le _ _ Hle) _ _ _ E). exact H.
+  Qed.
+  Lemma parse_expr_mono f g ts e : f <= g -> parse_expr T f ts = Some e -> parse_expr T g ts = Some e.
+  Proof.
+    intros Hle. unfold parse_expr. intro H.
+    destruct (q_bin (par T f) 0 ts) as [[e0 r]|] eqn:E; [|discriminate].
+    rewrite (le_bin _ _ (par_le _ _ Hle) _ _ _ E). exact H.
   Qed.
 End Mono.
